@@ -65,6 +65,19 @@ CLAIMED = {
              "verified); Switch._post_events not under contract. Bounded: remove_switch_handler_obj with 2 registered "
              "handlers per state and 2x3 timed entries (symbolic contents) - not counted as proved.",
         ref="4.C03"),
+    "C12": dict(
+        text="Every scalar validator (int, float, num, bool, bool_int, ms, secs, str, pow2, enum, numeric range) and "
+             "Util.string_to_ms are verified for ALL items (None/bool/int/float/str/list/dict): normal exit implies the "
+             "declared type and range, any other input raises; time strings equal value x unit for every suffix "
+             "(strings via cvc5/z3 with uninterpreted int()/float()/upper()). An exhaustive native sweep of all "
+             "1760 (section,key) entries of the real config_spec.yaml checks three-part specs, item types, validator "
+             "resolution, defaults accepted with the declared type, and that the range parameters are the ones the "
+             "contracts are instantiated with.",
+        note="Trusted: pyvc encoding, z3/cvc5, floats as reals, int(str)/float(str)/upper as uninterpreted functions, "
+             "string_to_secs and is_power2 as assumed contracts. _validate_config (unknown keys, spec untouched), "
+             "lists/sets/dicts normalisation and template validators are not yet under contract. Known finding "
+             "F-C12-b (pow2 returns str) is listed, not suppressed for other inputs.",
+        ref="4.C12"),
 }
 
 NA = {}
